@@ -400,6 +400,69 @@ C18 ==
               srt.recs[i][1] < srt.recs[i + 1][1] \/
               (srt.recs[i][1] = srt.recs[i + 1][1] /\ srt.recs[i][2] <= srt.recs[i + 1][2])
 
+
+(***************************************************************************)
+(* C16  commands fail loudly: outcome classes under environment faults     *)
+(***************************************************************************)
+Commands == {"copy", "diff", "sum", "sum-copy", "sum-diff", "view", "view-raw", "generate"}
+Faults == {"none", "textout-unopenable", "source-missing", "source-corrupt", "dest-dir-readonly", "dest-corrupt"}
+Writers == {"copy", "sum-copy", "generate"}
+HasDest == {"copy", "sum-copy", "diff", "sum-diff", "generate"}
+
+\* allowed outcome classes of a command whose arguments are otherwise fine.
+\* "ok" always means: the effect (destination content / complete output) is observable.
+FaultOutcome(c, f) ==
+  CASE f = "none" -> {"ok", "diff"}
+    [] f = "textout-unopenable" -> {"err"}
+    [] f = "source-missing" ->
+         (CASE c \in {"copy", "sum", "sum-copy", "view", "view-raw"} -> {"notexist"}
+            [] c = "diff" -> {"diff"}                       \* a missing side is a reported difference
+            [] c = "sum-diff" -> {"notexist", "ok"}          \* pattern without match / missing side reported
+            [] c = "generate" -> {"ok"})
+    [] f = "source-corrupt" -> IF c = "generate" THEN {"ok"} ELSE {"err"}
+    [] f = "dest-dir-readonly" -> IF c \in Writers THEN {"err"}
+                                  ELSE IF c \in HasDest THEN {"err", "ok", "diff"}   \* readers: the destination is unreadable or missing
+                                  ELSE {"ok", "diff"}
+    [] f = "dest-corrupt" -> IF c \in HasDest THEN {"err"} ELSE {"ok", "diff"}
+
+\* no fault is answered by silent success where an effect was required, and never by a panic
+C16Table ==
+  \A c \in Commands, f \in Faults :
+    /\ FaultOutcome(c, f) \subseteq {"ok", "diff", "err", "notexist"}
+    /\ (f = "textout-unopenable") => "ok" \notin FaultOutcome(c, f)
+    /\ (f \in {"dest-dir-readonly", "dest-corrupt"} /\ c \in Writers) => "ok" \notin FaultOutcome(c, f)
+
+FaultRows == [c \in Commands |-> [f \in Faults |-> FaultOutcome(c, f)]]
+ExportFaults == IF Export = "faults" THEN PrintT(ToJson([kind |-> "faults", table |-> FaultRows])) ELSE TRUE
+
+(***************************************************************************)
+(* C20  generate                                                           *)
+(***************************************************************************)
+\* the intervals archive a retains at clock n
+Retained(c, a, n) == {AlignW(StepOf(c, a), n) - i * StepOf(c, a) : i \in 0..(NOf(c, a) - 1)}
+
+\* value stored for interval I (classic placement first; linear search as a fallback so that the
+\* predicate does not depend on placement)
+ValAtC(c, a, ra, I) ==
+  LET i == IF BaseOf(ra) = 0 THEN 1 ELSE SlotIdx(c, a, BaseOf(ra), I)
+  IN IF ra[i].t = I THEN ra[i].v
+     ELSE LET S == {j \in 1..Len(ra) : ra[j].t = I} IN IF S = {} THEN NaN ELSE ra[CHOOSE j \in S : TRUE].v
+
+\* any ring generate may produce for (configuration, maximum, fill, clock)
+GenerateOK(c, r, max, fill, n) ==
+  IF ~fill THEN r = EmptyRing(c.layout)
+  ELSE \A a \in 1..K(c) :
+         /\ {r[a][i].t : i \in 1..NOf(c, a)} = Retained(c, a, n)            \* every slot of the retention, nothing else
+         /\ \A i \in 1..NOf(c, a) :
+              /\ ~IsNaN(r[a][i].v)
+              /\ r[a][i].v[1] >= 0 /\ r[a][i].v[1] <= max * (StepOf(c, a) \div StepOf(c, 1))
+         /\ a > 1 =>
+              \A I \in Retained(c, a, n) :
+                LET fin == {I + j * StepOf(c, a - 1) : j \in 0..((StepOf(c, a) \div StepOf(c, a - 1)) - 1)}
+                IN fin \subseteq Retained(c, a - 1, n) =>
+                     ValAtC(c, a, r[a], I) = Num(SumVals([j \in 1..(StepOf(c, a) \div StepOf(c, a - 1)) |->
+                                                     ValAtC(c, a - 1, r[a - 1], I + (j - 1) * StepOf(c, a - 1))]))
+
 (***************************************************************************)
 (* Export: every reachable tree with the expected outcome of a sample of    *)
 (* commands; the harness materialises the tree and runs the real commands.  *)
